@@ -537,11 +537,13 @@ def spawn_layer_in_subprocess(result, script_parts, options, features,
         for d in options.testrunner_defaults:
             args.extend(['--default', d])
 
-        args.extend(options.original_testrunner_args[1:])
         if options.shuffle and options.shuffle_seed is not None:
             # The subprocess must shuffle with the seed used (and reported)
-            # by this process, even if it was derived from the clock.
+            # by this process, even if it was derived from the clock.  The
+            # option goes in front of the user's own arguments: behind a
+            # ``--`` it would be taken for a positional filter.
             args.append('--shuffle-seed=%d' % options.shuffle_seed)
+        args.extend(options.original_testrunner_args[1:])
 
         debugargs = args  # save them before messing up for windows
         if sys.platform.startswith('win'):
